@@ -424,6 +424,13 @@ func (pf *ParserFacts) scalar(s SlotStore, req string, allowIntrinsic bool) slot
 				notes = append(notes, "result of the previous iteration (type delegated to its checked operand)")
 				continue
 			}
+			// the node built by the previous round of the same loop, whose stored type was copied from
+			// the operand this very slot holds (expr = Not{expr, type: expr.ValueType()}): its type is
+			// the type of an operand that is judged here
+			if o.lit != nil && selfTypedLoopNode(s, o.lit) {
+				notes = append(notes, "result of the previous round (its type is copied from the operand judged here)")
+				continue
+			}
 			return slotVerdict{what, false, false, "node " + o.node + " of non-constant type stored without a test"}
 		default:
 			allTrivial = false
@@ -435,6 +442,38 @@ func (pf *ParserFacts) scalar(s SlotStore, req string, allowIntrinsic bool) slot
 		}
 	}
 	return slotVerdict{what, true, allTrivial, strings.Join(uniq(notes), "; ")}
+}
+
+// selfTypedLoopNode: the slot store s fills a field of the literal lit, and every other store
+// of a ValueType into lit takes it from ValueType() of the value s stores.
+func selfTypedLoopNode(s SlotStore, lit *ssa.Alloc) bool {
+	st, ok := s.Instr.(*ssa.Store)
+	if !ok {
+		return false
+	}
+	fa, ok := st.Addr.(*ssa.FieldAddr)
+	if !ok || fa.X != ssa.Value(lit) {
+		return false
+	}
+	found := false
+	for _, ref := range *lit.Referrers() {
+		f2, ok := ref.(*ssa.FieldAddr)
+		if !ok || f2 == fa {
+			continue
+		}
+		for _, r2 := range *f2.Referrers() {
+			s2, ok := r2.(*ssa.Store)
+			if !ok || !isNamed(s2.Val.Type(), "ValueType") {
+				continue
+			}
+			c, ok := s2.Val.(*ssa.Call)
+			if !ok || !c.Call.IsInvoke() || c.Call.Method.Name() != "ValueType" || c.Call.Value != st.Val {
+				return false
+			}
+			found = true
+		}
+	}
+	return found
 }
 
 func typeStr(dt string, slice bool) string {
